@@ -366,6 +366,10 @@ func (r *partIndexTxn) reindex(idKey index.Key, old object, new object) {
 				if !newKeys.Exists(oldKey) {
 					if !unique {
 						oldKey = encodeNonUniqueKey(idKey, oldKey)
+					} else if cur, _, found := r.tx.Get(oldKey); found && cur.revision != old.revision {
+						// The key has already been taken over by another
+						// object, the entry is not ours to remove.
+						return
 					}
 					r.tx.Delete(oldKey)
 				}
